@@ -97,7 +97,7 @@ func runOneStartFail(c sfCase, tmpBase string) (sx.V, sx.V) {
 		sr = hk.NewScripted()
 		if launched {
 			sr.FailAfterLaunch = c.Mode
-			sr.OnStart = func(*hk.Scripted) {}
+			sr.OnStart = func(s *hk.Scripted) { leaveSocket(s.TmpDir) }
 		} else {
 			sr.StartErr = fmt.Errorf("scripted runner: nothing was launched")
 		}
@@ -105,6 +105,7 @@ func runOneStartFail(c sfCase, tmpBase string) (sx.V, sx.V) {
 	case "process":
 		cfg.RunnerFunc = func(l hclog.Logger, spec *exec.Cmd, tmp string) (runner.Runner, error) {
 			sockDir = tmp
+			leaveSocket(tmp)
 			p, err := newProcRunner(exec.Command("/bin/sh", "-c", "exec sleep 60"))
 			if err != nil {
 				return nil, err
